@@ -230,7 +230,10 @@ func heapCall(in ssa.Instruction, name string) *ssa.Call {
 	return call
 }
 
-func runC12(c *Ctx) {
+func runC12(c *Ctx) { timerRules(c, "C12.R") }
+
+// timerRules runs the timer rules under the rule-id prefix pfx (C12.R, C05.T).
+func timerRules(c *Ctx, pfx string) {
 	r := resolveTimerRoles(c)
 
 	// R1 index maintenance by abstract interpretation
@@ -254,7 +257,7 @@ func runC12(c *Ctx) {
 		// Swap
 		outs, err := ai.Explore(env, r.swap, []ai.Val{fs, ai.Tok{Name: "i"}, ai.Tok{Name: "j"}}, base())
 		if err != nil || len(outs) != 1 || outs[0].Panic {
-			c.Undecided("C12.R1", r.swap, "Swap keeps indices current", nil, fmt.Sprintf("cannot interpret Swap: %v", err))
+			c.Undecided(pfx+"1", r.swap, "Swap keeps indices current", nil, fmt.Sprintf("cannot interpret Swap: %v", err))
 		} else {
 			st := outs[0].State
 			for _, s := range [][2]string{{"i", "j"}, {"j", "i"}} {
@@ -273,13 +276,13 @@ func runC12(c *Ctx) {
 				} else {
 					ok = true
 				}
-				c.Decide("C12.R1", r.swap, "Swap: element in slot "+s[0]+" gets index "+s[0], nil, ok, detail)
+				c.Decide(pfx+"1", r.swap, "Swap: element in slot "+s[0]+" gets index "+s[0], nil, ok, detail)
 			}
 		}
 		// Push
 		outs, err = ai.Explore(env, r.push, []ai.Val{fs, ai.Ptr{Path: "newfut"}}, base())
 		if err != nil || len(outs) != 1 || outs[0].Panic {
-			c.Undecided("C12.R1", r.push, "Push sets the index", nil, fmt.Sprintf("cannot interpret Push: %v", err))
+			c.Undecided(pfx+"1", r.push, "Push sets the index", nil, fmt.Sprintf("cannot interpret Push: %v", err))
 		} else {
 			got := outs[0].State.Mem["newfut."+r.fIdx.Name()]
 			ok := got != nil && got.String() == "<len:arr>"
@@ -287,12 +290,12 @@ func runC12(c *Ctx) {
 			if got != nil {
 				g = got.String()
 			}
-			c.Decide("C12.R1", r.push, "Push: index = length before append", nil, ok, "Push stores "+g+" as index of the pushed future instead of the length before the append")
+			c.Decide(pfx+"1", r.push, "Push: index = length before append", nil, ok, "Push stores "+g+" as index of the pushed future instead of the length before the append")
 		}
 		// Pop
 		outs, err = ai.Explore(env, r.pop, []ai.Val{fs}, base())
 		if err != nil || len(outs) == 0 {
-			c.Undecided("C12.R1", r.pop, "Pop resets the index", nil, fmt.Sprintf("cannot interpret Pop: %v", err))
+			c.Undecided(pfx+"1", r.pop, "Pop resets the index", nil, fmt.Sprintf("cannot interpret Pop: %v", err))
 		} else {
 			ok, detail := true, ""
 			for _, o := range outs {
@@ -309,10 +312,10 @@ func runC12(c *Ctx) {
 					ok, detail = false, "Pop returns a future whose index is not reset to a negative value: Cancel of a fired future removes whatever sits at its stale index"
 				}
 			}
-			c.Decide("C12.R1", r.pop, "Pop: returned element gets a negative index", nil, ok, detail)
+			c.Decide(pfx+"1", r.pop, "Pop: returned element gets a negative index", nil, ok, detail)
 		}
 	}
-	c.R.Floor("C12.R1", 4)
+	c.R.Floor(pfx+"1", 4)
 
 	// R2 cancel is guarded
 	{
@@ -335,11 +338,11 @@ func runC12(c *Ctx) {
 				k, isC := ir.ConstInt(cm.Y)
 				return isC && ((cm.Op == token.GEQ && k == 0) || (cm.Op == token.GTR && k == -1))
 			})
-			c.Decide("C12.R2", fn, "heap.Remove guarded by idx>=0", call, guarded, "Cancel removes by index without the 'still queued' test: cancelling a fired or already cancelled future removes another future")
-			c.Decide("C12.R2", fn, "heap.Remove under the lock", call, r.mutexHeld(ls, in), "Cancel removes from the heap without holding the lock")
+			c.Decide(pfx+"2", fn, "heap.Remove guarded by idx>=0", call, guarded, "Cancel removes by index without the 'still queued' test: cancelling a fired or already cancelled future removes another future")
+			c.Decide(pfx+"2", fn, "heap.Remove under the lock", call, r.mutexHeld(ls, in), "Cancel removes from the heap without holding the lock")
 		})
 		if n == 0 {
-			c.Decide("C12.R2", fn, "cancel removes the future from the heap", nil, false, "cancel does not call heap.Remove: a cancelled future stays queued")
+			c.Decide(pfx+"2", fn, "cancel removes the future from the heap", nil, false, "cancel does not call heap.Remove: a cancelled future stays queued")
 		}
 		// cancel clears the callback or removes: after cancel returns on the queued edge, the future is out of the heap (by Remove above)
 	}
@@ -362,7 +365,7 @@ func runC12(c *Ctx) {
 				}
 			}
 			if after == nil {
-				c.Decide("C12.R3", fn, "heap.Pop only when now.After(fireTime)", call, false, "a future is popped without the test that the current time is after its fire time (started early)")
+				c.Decide(pfx+"3", fn, "heap.Pop only when now.After(fireTime)", call, false, "a future is popped without the test that the current time is after its fire time (started early)")
 				return
 			}
 			now, t := ir.Resolve(after.Call.Args[0]), ir.Resolve(after.Call.Args[1])
@@ -379,7 +382,7 @@ func runC12(c *Ctx) {
 					}
 				}
 			}
-			c.Decide("C12.R3", fn, "heap.Pop only when now.After(fireTime)", call, okNow && okT, "the due test before heap.Pop does not compare time.Now() with the fire time of the heap's first element")
+			c.Decide(pfx+"3", fn, "heap.Pop only when now.After(fireTime)", call, okNow && okT, "the due test before heap.Pop does not compare time.Now() with the fire time of the heap's first element")
 			// one critical section from the After test to the Pop
 			released := false
 			ir.Instrs(fn, func(u ssa.Instruction) {
@@ -392,12 +395,12 @@ func runC12(c *Ctx) {
 					released = true
 				}
 			})
-			c.Decide("C12.R3", fn, "due test and Pop in one critical section", call, !released, "the lock is released between the due test and heap.Pop: the popped future need not be the one that was tested")
+			c.Decide(pfx+"3", fn, "due test and Pop in one critical section", call, !released, "the lock is released between the due test and heap.Pop: the popped future need not be the one that was tested")
 			ls := ir.ComputeLockset(fn, nil)
-			c.Decide("C12.R3", fn, "heap.Pop under the lock", call, r.mutexHeld(ls, in) && r.mutexHeld(ls, after), "heap.Pop or its due test runs without the lock")
+			c.Decide(pfx+"3", fn, "heap.Pop under the lock", call, r.mutexHeld(ls, in) && r.mutexHeld(ls, after), "heap.Pop or its due test runs without the lock")
 		})
 		if n == 0 {
-			c.Decide("C12.R3", fn, "worker pops due futures", nil, false, "the worker never calls heap.Pop")
+			c.Decide(pfx+"3", fn, "worker pops due futures", nil, false, "the worker never calls heap.Pop")
 		}
 	}
 
@@ -427,7 +430,7 @@ func runC12(c *Ctx) {
 				}
 				if f != fn {
 					if fromField {
-						c.Decide("C12.R4", f, "callback invoked only by the worker", call, false, "the future's callback is invoked outside the worker")
+						c.Decide(pfx+"4", f, "callback invoked only by the worker", call, false, "the future's callback is invoked outside the worker")
 					}
 					return
 				}
@@ -435,7 +438,7 @@ func runC12(c *Ctx) {
 			})
 		}
 		if len(invoked) == 0 {
-			c.Decide("C12.R4", fn, "worker invokes the popped callback", nil, false, "the worker never invokes a callback")
+			c.Decide(pfx+"4", fn, "worker invokes the popped callback", nil, false, "the worker never invokes a callback")
 		}
 		for _, call := range invoked {
 			v := call.Call.Value
@@ -522,7 +525,7 @@ func runC12(c *Ctx) {
 			} else {
 				check(v, call.Block(), 0)
 			}
-			c.Decide("C12.R4", fn, "invoked callback is nil or freshly popped", call, bad == "", bad)
+			c.Decide(pfx+"4", fn, "invoked callback is nil or freshly popped", call, bad == "", bad)
 		}
 	}
 
@@ -545,16 +548,16 @@ func runC12(c *Ctx) {
 				}
 			}
 		})
-		c.Decide("C12.R5", fn, "fire time = time.Now().Add(d)", st, ok, "Call does not store time.Now().Add(timeout) as the fire time")
+		c.Decide(pfx+"5", fn, "fire time = time.Now().Add(d)", st, ok, "Call does not store time.Now().Add(timeout) as the fire time")
 		if st != nil {
 			for _, ac := range callsTo(fn, r.add) {
-				c.Decide("C12.R5", fn, "fire time set before queueing", ac, ir.Dominates(st, ac), "the future is queued before its fire time is set")
+				c.Decide(pfx+"5", fn, "fire time set before queueing", ac, ir.Dominates(st, ac), "the future is queued before its fire time is set")
 			}
 		}
 	}
 
 	// R6 lockset
-	c.timerLockset(r, "C12.R6")
+	c.timerLockset(r, pfx+"6")
 
 	// R7 census and fresh future
 	{
@@ -581,7 +584,7 @@ func runC12(c *Ctx) {
 					writesHeap = true
 				}
 				if writesHeap {
-					c.Decide("C12.R7", fn, "heap slice written only by heap.Interface methods", in, heapSet[fn], "the heap slice is modified outside Swap/Push/Pop: the element leaves or moves without its index being maintained")
+					c.Decide(pfx+"7", fn, "heap slice written only by heap.Interface methods", in, heapSet[fn], "the heap slice is modified outside Swap/Push/Pop: the element leaves or moves without its index being maintained")
 				}
 			})
 		}
@@ -589,9 +592,9 @@ func runC12(c *Ctx) {
 		for _, ret := range ir.Returns(r.callFn) {
 			v := ir.Resolve(ir.ResultValue(ret, 0))
 			_, isAlloc := v.(*ssa.Alloc)
-			c.Decide("C12.R7", r.callFn, "Call hands out a fresh future", ret, isAlloc, "the future returned by Call is not freshly allocated (recycled objects let a late Cancel hit another caller's future)")
+			c.Decide(pfx+"7", r.callFn, "Call hands out a fresh future", ret, isAlloc, "the future returned by Call is not freshly allocated (recycled objects let a late Cancel hit another caller's future)")
 		}
-		c.R.Floor("C12.R7", 4)
+		c.R.Floor(pfx+"7", 4)
 	}
 }
 
